@@ -542,6 +542,20 @@ impl<'a> HnswPageRef<'a> {
         let offset = slot.offset as usize;
         Ok(&self.data[offset..offset + slot.size as usize])
     }
+
+    /// Node data of an active or deleted slot. A deleted node keeps its bytes (and its
+    /// neighbour lists) as a tombstone until vacuum unlinks it, so graph traversal can
+    /// still pass through it.
+    pub fn read_slot_data(&self, slot_index: u16) -> Result<&[u8]> {
+        let slot = self
+            .get_slot(slot_index)
+            .ok_or_else(|| eyre::eyre!("invalid slot index"))?;
+
+        ensure!(!slot.is_free(), "slot is free");
+
+        let offset = slot.offset as usize;
+        Ok(&self.data[offset..offset + slot.size as usize])
+    }
 }
 
 pub struct HnswPage<'a> {
